@@ -255,6 +255,84 @@ func doBytes(stream string, bs []byte, host string, judged bool) {
 	}
 }
 
+// like declaredOK, for an input that several Decode calls read: the scan goes on after a STOP (a failed op that is not
+// cut short by the end of the input leaves the reader at the next op boundary, so the boundaries are the same)
+func declaredOKAll(bs []byte) bool {
+	for len(bs) > 0 {
+		if !declaredOK(bs) {
+			return false
+		}
+		i := bytes.IndexByte(bs, '.') // an over-approximation of where the scan of declaredOK stopped: good enough, since
+		if i < 0 {                    // a '.' inside a payload only makes the rest be scanned from a shifted offset too
+			return true
+		}
+		bs = bs[i+1:]
+	}
+	return true
+}
+
+// ---- C15: ONE Decoder called again and again, after failures and after successes
+func doReuse(stream string, bs []byte, host string, calls int) {
+	if !declaredOKAll(bs) {
+		stats["c15.outside-precondition"]++
+		return
+	}
+	input := map[string]any{"stream": "decn", "host": host, "bytes": hexb(bs), "calls": calls}
+	announce(input)
+	var u pickle.Unpickler
+	switch host {
+	case "h":
+		u = testUnpickler(false)
+	case "H":
+		u = testUnpickler(true)
+	}
+	dec := pickle.NewDecoder(bytes.NewReader(bs), u)
+	var outs []string
+	skip := false
+	for i := 0; i < calls; i++ {
+		var x starlark.Value
+		var err error
+		p, hung := guarded(func() { x, err = dec.Decode() })
+		out := ""
+		switch {
+		case hung:
+			out = "hang"
+		case p != nil:
+			out = "panic"
+		case err != nil:
+			out = "err"
+		case x == nil:
+			out = "nil"
+		default:
+			if pr := wellFormed(x); pr != "" {
+				out = "illformed " + pr
+			} else if g, derr := safeDump(x, dumpLimit); derr == errTooBig {
+				skip = true
+			} else if derr != nil {
+				out = "illformed " + derr.Error()
+			} else {
+				out = "ok " + g.String()
+			}
+		}
+		cls := strings.SplitN(out, " ", 2)[0]
+		stats[fmt.Sprintf("reuse.call%d.%s", i, cls)]++
+		stats["c15.judged"]++
+		if !skip && cls != "ok" && cls != "err" && host != "H" {
+			violation("decode-again-"+cls, input, fmt.Sprintf(
+				"call %d of %d on one Decoder returned neither a well-formed value nor an error: %.200s (earlier calls: %.200s)",
+				i, calls, out, strings.Join(outs, " ## ")))
+		}
+		outs = append(outs, out)
+		if hung {
+			break
+		}
+	}
+	stats["reuse.cases"]++
+	if !skip && !hungFlag {
+		pair(stream, fmt.Sprintf("decn %s %d %s", host, calls, hexb(bs)), strings.Join(outs, " ## "))
+	}
+}
+
 func runC07(r *rng, tier string) {
 	cases := directed(tier)
 	nrand := 6000
@@ -366,11 +444,20 @@ func runC15(r *rng, tier string) {
 				m = r.mutate(m)
 			}
 			runCase(func() { doBytes("dec.mutated", m, "h", true) })
+			if j == 0 && len(bs) <= 3000 { // the same Decoder called again after what this input makes of the first call; and two inputs in a row
+				calls := 2 + r.below(3)
+				m2 := append(append([]byte{}, m...), bs...)
+				runCase(func() { doReuse("decn.mutated", m, "h", calls) })
+				runCase(func() { doReuse("decn.concat", m2, "h", calls) })
+			}
 		}
 		if len(bs) <= 450 { // every truncation of a short record (incl. the 200-digit integers: INT text cut anywhere)
 			for n := 0; n < len(bs); n++ {
 				n := n
 				runCase(func() { doBytes("dec.truncated", bs[:n], "h", true) })
+				if n%41 == 2 {
+					runCase(func() { doReuse("decn.truncated", bs[:n], "h", 3) })
+				}
 			}
 		}
 	}
@@ -386,6 +473,13 @@ func runC15(r *rng, tier string) {
 			runCase(func() { doBytes("dec.soup-badhost", s, "H", false) })
 		default:
 			runCase(func() { doBytes("dec.soup", s, "h", true) })
+		}
+		if i%16 == 0 {
+			calls := 2 + r.below(3)
+			hosts := []string{"h", "h", "n", "H"}
+			host := hosts[r.below(4)]
+			s2 := append(append([]byte{}, s...), r.soup2()...)
+			runCase(func() { doReuse("decn.soup", s2, host, calls) })
 		}
 	}
 	twoOps()
@@ -410,6 +504,9 @@ func replay(in string) {
 	case "dec":
 		bs, _ := hex.DecodeString(c["bytes"].(string))
 		runCase(func() { doBytes("dec.replay", bs, c["host"].(string), true) })
+	case "decn":
+		bs, _ := hex.DecodeString(c["bytes"].(string))
+		runCase(func() { doReuse("decn.replay", bs, c["host"].(string), int(c["calls"].(float64))) })
 	case "rts":
 		// the elements of the stream as one tuple: doStream takes it apart again
 		t := c["graph"].(string)
